@@ -97,3 +97,368 @@ Proof.
            | H : (?a <? 0) = false, H2 : (?a <? 0) = true |- _ => rewrite H in H2; discriminate
            end; try discriminate.
 Qed.
+
+(* ------------------------------------------------------------------ gas *)
+
+Lemma selected_len : forall P inp mf, selected P inp = Some mf -> 4 <= i_len inp.
+Proof.
+  intros P inp mf H. unfold selected in H. destruct (i_len inp <? 4) eqn:E; [discriminate|].
+  apply Z.ltb_ge in E. exact E.
+Qed.
+
+Lemma GGas_inj : forall a b, GGas a = GGas b -> a = b.
+Proof. intros a b H. injection H. auto. Qed.
+
+Lemma required_gas_nonneg : forall F P inp rq, required_gas F P inp = GGas rq -> 0 <= rq.
+Proof.
+  intros F P inp rq H. unfold required_gas in H.
+  destruct (i_len inp <? 4) eqn:E.
+  - destruct (f_len_guard F); [|discriminate]. apply GGas_inj in H. rewrite <- H. unfold tx_gas. lia.
+  - apply Z.ltb_ge in E. destruct (selected P inp) as [mf|].
+    + destruct (mf_mutation mf); apply GGas_inj in H; rewrite <- H; lia.
+    + apply GGas_inj in H. rewrite <- H. unfold tx_gas. lia.
+Qed.
+
+Lemma guard_eqb_true : forall a b, guard_eqb a b = true -> a = b.
+Proof. destruct a, b; simpl; intro H; try reflexivity; discriminate. Qed.
+
+Lemma method_ok_parts : forall mf, method_ok mf = true ->
+  mf_in_switch mf = true /\ mf_guard_first mf = true /\
+  (can_mutate (mf_id mf) = true -> mf_guard mf = GReadonly) /\
+  (mf_abi_view mf = true -> can_mutate (mf_id mf) = false) /\
+  (mf_abi_view mf = false -> mf_guard mf = GReadonly).
+Proof.
+  intros mf H. unfold method_ok in H.
+  apply andb_prop in H as [H H5]. apply andb_prop in H as [H H4]. apply andb_prop in H as [H H3].
+  apply andb_prop in H as [H1 H2].
+  repeat split; try assumption.
+  - intro C. rewrite C in H3. simpl in H3. apply guard_eqb_true. assumption.
+  - intro V. rewrite V in H4. simpl in H4. apply negb_true_iff. assumption.
+  - intro V. rewrite V in H5. simpl in H5. apply guard_eqb_true. assumption.
+Qed.
+
+Section RunProofs.
+  Variable St : Type.
+  Variable body : mid -> list arg -> St -> Z -> bres St.
+  Variable transfer : St -> Z -> St.
+
+  Notation run_handler := (run_handler St body).
+  Notation run_pc := (run_pc St body).
+  Notation evm_call := (evm_call St body transfer).
+
+  Lemma charge_bounds : forall P g1 u, 0 <= g1 -> 0 <= charge P g1 u <= g1.
+  Proof.
+    intros P g1 u H. unfold charge. destruct (pf_usegas P); [|lia].
+    destruct (g1 <? Z.max 0 u) eqn:E; [lia|]. apply Z.ltb_ge in E. lia.
+  Qed.
+
+  Lemma oog_left : forall P g1 st, r_left (oog St P g1 st) = g1.
+  Proof. intros. unfold oog. destruct (pf_oog_deferred P); reflexivity. Qed.
+
+  Lemma run_handler_left : forall F P mf ro value g1 args st,
+    0 <= g1 -> 0 <= r_left (run_handler F P mf ro value g1 args st) <= g1.
+  Proof.
+    intros F P mf ro value g1 args st H. unfold Model.run_handler.
+    pose proof (charge_bounds P g1) as CB.
+    repeat dmatch; simpl; rewrite ?oog_left; try lia; apply CB; assumption.
+  Qed.
+
+  Lemma run_pc_left : forall F P ro value gas inp st,
+    0 <= gas -> 0 <= r_left (run_pc F P ro value gas inp st) <= gas.
+  Proof.
+    intros F P ro value gas inp st H. unfold Model.run_pc.
+    destruct (required_gas F P inp) as [|rq] eqn:RG; simpl; [lia|].
+    pose proof (required_gas_nonneg _ _ _ _ RG) as RQ.
+    destruct (gas <? rq) eqn:E; simpl; [lia|]. apply Z.ltb_ge in E.
+    assert (G1 : 0 <= gas - rq) by lia.
+    repeat dmatch; simpl; try lia.
+    pose proof (run_handler_left F P m ro value (gas - rq) l st G1). lia.
+  Qed.
+
+  (** C08_gas_bounded *)
+  Lemma evm_call_gas_bounded : forall F p k value gas inp st,
+    0 <= gas -> 0 <= r_left (evm_call F p k value gas inp st) <= gas.
+  Proof.
+    intros F p k value gas inp st H. unfold Model.evm_call.
+    match goal with |- context [Model.run_pc St body ?a ?b ?c ?d ?e ?f ?g] =>
+      pose proof (run_pc_left a b c d e f g H) as B; destruct (Model.run_pc St body a b c d e f g) as [o l s] end.
+    simpl in *. destruct o; simpl; lia.
+  Qed.
+
+  (** C08_error_leaves_no_state *)
+  Lemma evm_call_error : forall F p k value gas inp st,
+    is_err (r_out (evm_call F p k value gas inp st)) = true ->
+    r_st (evm_call F p k value gas inp st) = st /\ r_left (evm_call F p k value gas inp st) = 0.
+  Proof.
+    intros F p k value gas inp st. unfold Model.evm_call.
+    match goal with |- context [Model.run_pc St body ?a ?b ?c ?d ?e ?f ?g] =>
+      destruct (Model.run_pc St body a b c d e f g) as [o l s] end.
+    simpl. destruct o; simpl; intro H; try discriminate; split; reflexivity.
+  Qed.
+
+  (* ---------------------------------------------------------------- inversion of a successful run *)
+
+  Definition guard_passes (mf : method_facts) (ro : bool) (value : option Z) : Prop :=
+    match mf_guard mf with
+    | GReadonly => ro = false
+    | GQuery => value_nonzero value = false
+    | GNone => True
+    end.
+
+  Lemma run_handler_ok : forall F P mf ro value g1 args st,
+    r_out (run_handler F P mf ro value g1 args st) = Ok ->
+    guard_passes mf ro value /\ validate F (mf_id mf) args = VPass /\
+    exists st' u, body (mf_id mf) args st g1 = BOk st' u /\ r_st (run_handler F P mf ro value g1 args st) = st'.
+  Proof.
+    intros F P mf ro value g1 args st. unfold Model.run_handler, guard_passes, oog.
+    repeat dmatch; simpl; intro H; try discriminate; (split; [auto|split; [reflexivity|eauto]]).
+  Qed.
+
+  Lemma run_pc_ok : forall F P ro value gas inp st,
+    r_out (run_pc F P ro value gas inp st) = Ok ->
+    exists mf args rq,
+      selected P inp = Some mf /\ i_unpack inp = Some args /\ mf_in_switch mf = true /\
+      required_gas F P inp = GGas rq /\
+      guard_passes mf ro value /\ validate F (mf_id mf) args = VPass /\
+      exists st' u, body (mf_id mf) args st (gas - rq) = BOk st' u /\ r_st (run_pc F P ro value gas inp st) = st'.
+  Proof.
+    intros F P ro value gas inp st. unfold Model.run_pc.
+    destruct (required_gas F P inp) as [|rq] eqn:RG; simpl; [discriminate|].
+    destruct (gas <? rq); simpl; [discriminate|].
+    destruct (i_len inp <? 4); simpl; [discriminate|].
+    destruct (selected P inp) as [mf|] eqn:S; simpl; [|discriminate].
+    destruct (i_unpack inp) as [args|] eqn:U; simpl; [|discriminate].
+    destruct (mf_in_switch mf) eqn:SW; simpl; [|discriminate].
+    intro H. apply run_handler_ok in H. destruct H as [A [B C]].
+    exists mf, args, rq. repeat split; auto.
+  Qed.
+
+  (** where a Panic can come from *)
+  Lemma run_handler_panic : forall F P mf ro value g1 args st,
+    r_out (run_handler F P mf ro value g1 args st) = Panic ->
+    validate F (mf_id mf) args = VPanic \/ pf_oog_deferred P = false.
+  Proof.
+    intros F P mf ro value g1 args st. unfold Model.run_handler, oog.
+    repeat dmatch; simpl; intro H; try discriminate; auto.
+  Qed.
+
+  Lemma run_pc_panic : forall F P ro value gas inp st,
+    r_out (run_pc F P ro value gas inp st) = Panic ->
+    f_len_guard F = false \/ pf_oog_deferred P = false \/
+    exists mf args, selected P inp = Some mf /\ i_unpack inp = Some args /\ validate F (mf_id mf) args = VPanic.
+  Proof.
+    intros F P ro value gas inp st. unfold Model.run_pc.
+    destruct (required_gas F P inp) as [|rq] eqn:RG; simpl.
+    - intros _. left. unfold required_gas in RG. repeat dmatch_in RG; try discriminate. reflexivity.
+    - destruct (gas <? rq); simpl; [discriminate|].
+      destruct (i_len inp <? 4); simpl; [discriminate|].
+      destruct (selected P inp) as [mf|] eqn:S; simpl; [|discriminate].
+      destruct (i_unpack inp) as [args|] eqn:U; simpl; [|discriminate].
+      destruct (mf_in_switch mf) eqn:SW; simpl; [|discriminate].
+      intro H. apply run_handler_panic in H. destruct H as [H|H]; [|auto].
+      right. right. exists mf, args. auto.
+  Qed.
+
+  Lemma evm_call_out : forall F p k value gas inp st,
+    r_out (evm_call F p k value gas inp st) =
+    r_out (run_pc F (pc_of F p) (pc_readonly F k) (pc_value k value) gas inp
+             (if transfers k && negb (value =? 0) then transfer st value else st)).
+  Proof.
+    intros. unfold Model.evm_call.
+    match goal with |- context [Model.run_pc St body ?a ?b ?c ?d ?e ?f ?g] =>
+      destruct (Model.run_pc St body a b c d e f g) as [o l s] end.
+    destruct o; reflexivity.
+  Qed.
+
+  Lemma pc_ok_of : forall F p, guards_ok F = true -> pc_ok (pc_of F p) = true.
+  Proof.
+    intros F p H. unfold guards_ok in H. apply andb_prop in H as [H H3]. apply andb_prop in H as [H1 H2].
+    destruct p; assumption.
+  Qed.
+
+  Lemma oog_deferred_of : forall F p, panic_ok F = true -> pf_oog_deferred (pc_of F p) = true.
+  Proof.
+    intros F p H. unfold panic_ok in H. repeat (apply andb_prop in H as [H ?]). destruct p; assumption.
+  Qed.
+
+  (** C08_no_panic *)
+  Lemma evm_call_no_panic : forall F p k value gas inp st,
+    panic_ok F = true -> input_wf inp = true ->
+    r_out (evm_call F p k value gas inp st) <> Panic.
+  Proof.
+    intros F p k value gas inp st PO W H. rewrite evm_call_out in H.
+    apply run_pc_panic in H.
+    pose proof (oog_deferred_of F p PO) as OD.
+    unfold panic_ok in PO. repeat (apply andb_prop in PO as [PO ?]).
+    destruct H as [H|[H|[mf [args [S [U V]]]]]]; try congruence.
+    unfold input_wf in W. rewrite U in W.
+    apply (validate_no_panic F (mf_id mf) args); [|assumption|assumption].
+    unfold guards_all. repeat (apply andb_true_intro; split); assumption.
+  Qed.
+
+  Lemma selected_in : forall P inp mf, selected P inp = Some mf -> In mf (pf_methods P).
+  Proof.
+    intros P inp mf H. unfold selected in H. repeat dmatch_in H; try discriminate.
+    unfold find_method in H. apply find_some in H. tauto.
+  Qed.
+
+  Lemma method_ok_of : forall P inp mf, pc_ok P = true -> selected P inp = Some mf -> method_ok mf = true.
+  Proof.
+    intros P inp mf H S. unfold pc_ok in H. repeat (apply andb_prop in H as [H ?]).
+    rewrite forallb_forall in H. apply H. eapply selected_in; eassumption.
+  Qed.
+
+  (** bodies of methods that are not state-changing are read-only keeper queries *)
+  Definition query_bodies_readonly : Prop :=
+    forall m args st lim, can_mutate m = false ->
+      match body m args st lim with BOk st' _ | BErr st' _ | BOog st' => st' = st end.
+
+  (** a successful run in read-only mode leaves the state as it was *)
+  Lemma run_pc_readonly_state : forall F P value gas inp st,
+    pc_ok P = true -> query_bodies_readonly ->
+    r_out (run_pc F P true value gas inp st) = Ok ->
+    r_st (run_pc F P true value gas inp st) = st /\
+    exists mf, selected P inp = Some mf /\ can_mutate (mf_id mf) = false.
+  Proof.
+    intros F P value gas inp st PO QB H.
+    apply run_pc_ok in H. destruct H as [mf [args [rq [S [U [SW [RG [GP [V [st' [u [B E]]]]]]]]]]]].
+    pose proof (method_ok_parts _ (method_ok_of _ _ _ PO S)) as [_ [_ [MG [_ _]]]].
+    destruct (can_mutate (mf_id mf)) eqn:CM.
+    - exfalso. unfold guard_passes in GP. rewrite (MG eq_refl) in GP. discriminate.
+    - specialize (QB (mf_id mf) args st (gas - rq) CM). rewrite B in QB. subst st'.
+      split; [assumption|]. exists mf. auto.
+  Qed.
+
+  (** a successful run of a query method changes nothing (any mode) *)
+  Lemma run_pc_query_state : forall F P ro value gas inp st mf,
+    pc_ok P = true -> query_bodies_readonly ->
+    selected P inp = Some mf -> mf_abi_view mf = true ->
+    r_out (run_pc F P ro value gas inp st) = Ok ->
+    r_st (run_pc F P ro value gas inp st) = st.
+  Proof.
+    intros F P ro value gas inp st mf PO QB S AV H.
+    apply run_pc_ok in H. destruct H as [mf' [args [rq [S' [U [SW [RG [GP [V [st' [u [B E]]]]]]]]]]]].
+    rewrite S in S'. inversion S'. subst mf'.
+    pose proof (method_ok_parts _ (method_ok_of _ _ _ PO S)) as [_ [_ [_ [MV _]]]].
+    specialize (QB (mf_id mf) args st (gas - rq) (MV AV)). rewrite B in QB. subst st'. assumption.
+  Qed.
+
+  Lemma evm_call_ok_st : forall F p k value gas inp st,
+    r_out (evm_call F p k value gas inp st) = Ok ->
+    r_st (evm_call F p k value gas inp st) =
+    r_st (run_pc F (pc_of F p) (pc_readonly F k) (pc_value k value) gas inp
+            (if transfers k && negb (value =? 0) then transfer st value else st)).
+  Proof.
+    intros F p k value gas inp st. unfold Model.evm_call.
+    match goal with |- context [Model.run_pc St body ?a ?b ?c ?d ?e ?f ?g] =>
+      destruct (Model.run_pc St body a b c d e f g) as [o l s] end.
+    destruct o; simpl; intro H; try discriminate; reflexivity.
+  Qed.
+
+  Lemma evm_call_st_cases : forall F p k value gas inp st,
+    r_out (evm_call F p k value gas inp st) <> Panic ->
+    r_out (evm_call F p k value gas inp st) = Ok \/ r_st (evm_call F p k value gas inp st) = st.
+  Proof.
+    intros F p k value gas inp st. unfold Model.evm_call.
+    match goal with |- context [Model.run_pc St body ?a ?b ?c ?d ?e ?f ?g] =>
+      destruct (Model.run_pc St body a b c d e f g) as [o l s] end.
+    destruct o; simpl; intro H; auto. congruence.
+  Qed.
+
+  (** C08_static_never_mutates: in a call the wrapper marks read-only, nothing changes and
+      state-changing methods are refused *)
+  Lemma evm_call_readonly : forall F p k value gas inp st,
+    guards_ok F = true -> query_bodies_readonly ->
+    pc_readonly F k = true -> (transfers k = true -> value = 0) ->
+    r_out (evm_call F p k value gas inp st) <> Panic ->
+    r_st (evm_call F p k value gas inp st) = st /\
+    (is_nonview (selected (pc_of F p) inp) = true -> r_out (evm_call F p k value gas inp st) <> Ok).
+  Proof.
+    intros F p k value gas inp st GO QB RO TV NP.
+    pose proof (pc_ok_of F p GO) as PO.
+    assert (ST : (if transfers k && negb (value =? 0) then transfer st value else st) = st).
+    { destruct (transfers k) eqn:T; simpl; [|reflexivity]. rewrite (TV eq_refl). reflexivity. }
+    split.
+    - destruct (evm_call_st_cases F p k value gas inp st NP) as [OK|E]; [|assumption].
+      pose proof OK as OK2. rewrite evm_call_out, RO, ST in OK2.
+      apply (run_pc_readonly_state F _ _ _ _ _ PO QB) in OK2. destruct OK2 as [E _].
+      rewrite (evm_call_ok_st _ _ _ _ _ _ _ OK), RO, ST. assumption.
+    - intros NV OK. rewrite evm_call_out, RO, ST in OK.
+      apply run_pc_ok in OK. destruct OK as [mf [args [rq [S [_ [_ [_ [GP _]]]]]]]].
+      rewrite S in NV. simpl in NV. apply negb_true_iff in NV.
+      pose proof (method_ok_parts _ (method_ok_of _ _ _ PO S)) as [_ [_ [_ [_ MN]]]].
+      unfold guard_passes in GP. rewrite (MN NV) in GP. discriminate.
+  Qed.
+
+  (** C08_query_never_mutates: a query method leaves the state as it was, up to the value the
+      wrapper itself moved to the precompile account before running it *)
+  Lemma evm_call_query : forall F p k value gas inp st mf,
+    guards_ok F = true -> query_bodies_readonly ->
+    selected (pc_of F p) inp = Some mf -> mf_abi_view mf = true ->
+    r_out (evm_call F p k value gas inp st) <> Panic ->
+    (r_st (evm_call F p k value gas inp st) = st \/
+     (r_out (evm_call F p k value gas inp st) = Ok /\ transfers k = true /\ value <> 0 /\
+      r_st (evm_call F p k value gas inp st) = transfer st value)) /\
+    (value = 0 -> r_st (evm_call F p k value gas inp st) = st).
+  Proof.
+    intros F p k value gas inp st mf GO QB S AV NP.
+    pose proof (pc_ok_of F p GO) as PO.
+    destruct (evm_call_st_cases F p k value gas inp st NP) as [OK|E]; [|split; auto].
+    pose proof OK as OK2. rewrite evm_call_out in OK2.
+    pose proof (run_pc_query_state F _ _ _ _ _ _ _ PO QB S AV OK2) as E.
+    rewrite (evm_call_ok_st _ _ _ _ _ _ _ OK), E.
+    destruct (transfers k) eqn:T; simpl; [|split; auto].
+    destruct (value =? 0) eqn:V; simpl; [split; auto|].
+    apply Z.eqb_neq in V. split; [|intro; contradiction]. right. repeat split; auto.
+  Qed.
+
+  (** query methods guarded by assertContractQuery never see a transfer *)
+  Lemma evm_call_guarded_query : forall F p k value gas inp st mf,
+    guards_ok F = true -> query_bodies_readonly ->
+    selected (pc_of F p) inp = Some mf -> mf_abi_view mf = true -> mf_guard mf = GQuery ->
+    r_out (evm_call F p k value gas inp st) <> Panic ->
+    r_st (evm_call F p k value gas inp st) = st.
+  Proof.
+    intros F p k value gas inp st mf GO QB S AV GQ NP.
+    destruct (evm_call_query F p k value gas inp st mf GO QB S AV NP) as [[E|[OK [T [V E]]]] _]; [assumption|].
+    exfalso. rewrite evm_call_out in OK. apply run_pc_ok in OK.
+    destruct OK as [mf' [args [rq [S' [_ [_ [_ [GP _]]]]]]]]. rewrite S in S'. inversion S'. subst mf'.
+    unfold guard_passes in GP. rewrite GQ in GP.
+    destruct k; simpl in *; try discriminate; apply negb_false_iff in GP; apply Z.eqb_eq in GP; contradiction.
+  Qed.
+
+  (** the property predicate of Spec.v holds of every model run *)
+  Lemma model_satisfies_P : forall F p k value gas inp st,
+    guards_ok F = true -> panic_ok F = true -> f_direct_ro F = true ->
+    query_bodies_readonly -> input_wf inp = true -> 0 <= gas ->
+    let r := evm_call F p k value gas inp st in
+    P k value gas (selected (pc_of F p) inp) (r_out r) (r_left r)
+      (r_st r = st) (r_st r = st \/ r_st r = transfer st value).
+  Proof.
+    intros F p k value gas inp st GO PO DR QB W G r. subst r.
+    pose proof (evm_call_no_panic F p k value gas inp st PO W) as NP.
+    unfold P. split; [assumption|]. split; [apply evm_call_gas_bounded; assumption|].
+    split; [intro E; apply evm_call_error in E; tauto|].
+    assert (RO : direct_ro k = true -> pc_readonly F k = true /\ (transfers k = true -> value = 0)).
+    { destruct k; simpl; intro D; try discriminate; (split; [assumption|intro; discriminate]). }
+    split; [intro D; destruct (RO D) as [R T]; apply (evm_call_readonly F p k value gas inp st GO QB R T NP)|].
+    split; [intros D; destruct (RO D) as [R T]; apply (evm_call_readonly F p k value gas inp st GO QB R T NP)|].
+    destruct (selected (pc_of F p) inp) as [mf|] eqn:S; simpl; [|split; intro; discriminate].
+    split; intro AV.
+    - destruct (evm_call_query F p k value gas inp st mf GO QB S AV NP) as [[E|[_ [_ [_ E]]]] _]; auto.
+    - intro V. apply (evm_call_query F p k value gas inp st mf GO QB S AV NP). assumption.
+  Qed.
+
+  (** … and the nested clause too, on a tree whose EVM.Call hands the static flag down *)
+  Lemma model_satisfies_P_nested : forall F p k gas inp st,
+    guards_ok F = true -> panic_ok F = true -> f_call_inherits_static F = true ->
+    query_bodies_readonly -> input_wf inp = true ->
+    let r := evm_call F p k 0 gas inp st in
+    P_nested k (selected (pc_of F p) inp) (r_out r) (r_st r = st).
+  Proof.
+    intros F p k gas inp st GO PO CI QB W r N. subst r.
+    pose proof (evm_call_no_panic F p k 0 gas inp st PO W) as NP.
+    assert (R : pc_readonly F k = true). { destruct k as [|[|]| | |]; simpl in *; try discriminate. rewrite CI. reflexivity. }
+    apply (evm_call_readonly F p k 0 gas inp st GO QB R (fun _ => eq_refl) NP).
+  Qed.
+End RunProofs.
